@@ -147,6 +147,20 @@ pub fn after_call(
     m.tmp_pre_match = None;
     m.tmp_acked_beyond = None;
 
+    // ---------- ghost: which followers asked this leader for a snapshot during this leadership
+    let became_leader = post.state == StateRole::Leader && (pre.state != StateRole::Leader || pre.term != post.term);
+    if became_leader || post.state != StateRole::Leader {
+        m.g.per[v].snap_asked.clear();
+    }
+    if post.state == StateRole::Leader {
+        if let Op::Step(x) = op {
+            if x.get_msg_type() == MessageType::MsgAppendResponse && x.request_snapshot != 0 && x.term == post.term {
+                m.g.per[v].snap_asked.insert(x.from);
+                m.stats.inc("c15.snapshot_requests_stepped");
+            }
+        }
+    }
+
     // ---------- (c) leader side: why a snapshot is sent
     if post.state == StateRole::Leader {
         for x in new_msgs {
@@ -160,8 +174,24 @@ pub fn after_call(
                 let first = post.first_index;
                 let needed_gone = pr.next_idx < first;
                 let asked = pr.pending_request_snapshot != 0;
+                // the library's flag must be backed by a request received in this leadership
+                let asked_here = m.g.per[v].snap_asked.contains(&u);
                 if asked {
                     m.stats.inc("c15.snapshots_emitted_on_request");
+                }
+                if asked && !asked_here && !needed_gone {
+                    m.violation(
+                        "C15",
+                        "snapshot-only-when-needed",
+                        "snapshot-sent-for-request-of-earlier-leadership".into(),
+                        format!(
+                            "leader {} (term {}) sent a snapshot ({}) to {} whose next index {} is still in the log [{}..]; {} asked for no snapshot during this leadership (the request flag is left over from an earlier one)",
+                            id, post.term, si, u, pr.next_idx, first, u
+                        ),
+                        id,
+                        step,
+                    );
+                    return;
                 }
                 let mut f = Fp::new();
                 f.u(9).u(needed_gone as u64).u(asked as u64).u((si == post.committed) as u64);
